@@ -31,7 +31,7 @@ RULE = ("one evaluation = one (compu method, value, load path) triple judged by 
 ASSUMPTIONS = [
     "a Python int is an admissible value of a float-typed internal/physical type (DataType.isinstance); a float offered to an integer-typed side is not judged; bool, NaN and infinities are never generated",
     "limit values and table points of float-typed domains denote the double nearest to their text; coefficient texts denote their exact decimal value and the double rounding of coefficients is covered by the tolerance (DESIGN 2.4: 64 ulp(double) of the condition magnitude + 4 ulp of the target float width)",
-    "integer results: any integer n with |n - exact| <= 1/2 + float tolerance is accepted (both neighbours on ties); the round trip is demanded only up to that set",
+    "integer results: any integer n with |n - exact| <= 1/2 + float tolerance is accepted (both neighbours on ties); the round trip is demanded only up to that set; the result of an integer-typed side must be a Python int (2.0 is not an integer result); an int returned for a float-typed side is accepted (ints are admissible floats)",
     "a COMPU-SCALE of a linear/rational method with exactly one limit element can be read as a single point or as a half-bounded interval; values on which the two readings differ are not judged and no physical-side clause is evaluated for such methods",
     "overlapping scales: linear and rational methods use the first applicable scale (DESIGN 2.4); overlapping text-table scales and texts naming several scales are not judged (E16)",
     "is_valid_physical_value is judged only where the statement fixes it: images of valid internal values of injective methods, exact preimages outside the declared limits (limits honour OPEN/CLOSED), explicitly declared inverse scales of rational methods, text tables without default, images under monotone continuous SCALE-LINEAR methods",
